@@ -352,6 +352,9 @@ class HierarchyElement(DiagLayer):
         # add the locally defined entries, overriding the inherited
         # ones if necessary
         for obj in local_objects:
+            if obj.short_name in result_dict and result_dict[obj.short_name][1] is self:
+                odxraise(f"Diagnostic layer {self.short_name} defines multiple "
+                         f"objects named {obj.short_name}")
             result_dict[obj.short_name] = (obj, self)
 
         return [x[0] for x in result_dict.values()]
